@@ -47,8 +47,8 @@ func (c *CoqFile) DirApps(ds ast.DirectiveList) string {
 func (c *CoqFile) ArgDefs(as ast.ArgumentDefinitionList) string {
 	parts := []string{}
 	for _, a := range as {
-		parts = append(parts, fmt.Sprintf("{| ad_name := %s; ad_desc := %s; ad_type := %s; ad_default := %s |}",
-			c.S(a.Name), c.S(a.Description), c.Ty(a.Type), c.GVal(a.DefaultValue)))
+		parts = append(parts, fmt.Sprintf("{| ad_name := %s; ad_desc := %s; ad_type := %s; ad_default := %s; ad_dirs := %s |}",
+			c.S(a.Name), c.S(a.Description), c.Ty(a.Type), c.GVal(a.DefaultValue), c.DirApps(a.Directives)))
 	}
 	return "[" + strings.Join(parts, "; ") + "]"
 }
